@@ -148,7 +148,7 @@ func ruleMUT1(p *Program) *RuleResult {
 		}
 	}
 	r.count("positive_control_patch_mutators", n)
-	r.floor("positive_control_patch_mutators", 6)
+	r.floor("positive_control_patch_mutators", 4)
 	r.floor("functions", 150)
 	if n >= 6 {
 		r.ok("positive-control", fmt.Sprintf("the same scan from the patch API finds %d non-fresh proto mutators", n), "fhirpath/patch/patch.go", "positive control", false)
@@ -259,7 +259,7 @@ func ruleMUT2(p *Program) *RuleResult {
 	r := newResult("MUT2")
 	mut2Scan(p, r, "eval", false)
 	r.floor("functions_eval", 150)
-	r.floor("write_sites_eval", 18)
+	r.floor("write_sites_eval", 10)
 	return r
 }
 
@@ -380,7 +380,7 @@ func ruleMUT3(p *Program) *RuleResult {
 		}
 	}
 	r.count("positive_control_construction_stores", n)
-	r.floor("positive_control_construction_stores", 20)
+	r.floor("positive_control_construction_stores", 12)
 	return r
 }
 
@@ -450,7 +450,7 @@ func ruleMUT4(p *Program) *RuleResult {
 			}
 		}
 	}
-	r.floor("context_field_stores", 3)
+	r.floor("context_field_stores", 2)
 	r.floor("context_map_updates", 1)
 	return r
 }
